@@ -37,6 +37,7 @@ def judge (suite : String) (inp obs : List String) : Verdict :=
   | "dnsrt" => Judge.DnsWire.judgeRt inp obs
   | "inreply" => Judge.C03.judge inp obs
   | "leasedb" => Judge.C18.judge inp obs
+  | "crashkill" => Judge.C18.judgeCrash inp obs
   | "ra" => Judge.C17.judge inp obs
   | "dhcpcfg" => Judge.C02.judge inp obs
   | "cfgfield" => Judge.C19.judgeField inp obs
